@@ -19,12 +19,16 @@ def main():
         try:
             repo = os.path.join(d, "repo")
             shutil.copytree("/repo", repo, ignore=shutil.ignore_patterns(".git", "__pycache__", "docs", "*.png", "tests"))
-            p = os.path.join(repo, m["file"])
-            s = open(p).read()
-            if s.count(m["find"]) < 1:
-                res.append((m["name"], "STALE (pattern not found)")); continue
-            s = s.replace(m["find"], m["replace"], 1)
-            open(p, "w").write(s)
+            edits = [(m["file"], m["find"], m["replace"])] + [(e["file"], e["find"], e["replace"]) for e in m.get("more", [])]
+            stale = False
+            for f_, find_, repl_ in edits:
+                p = os.path.join(repo, f_)
+                s = open(p).read()
+                if s.count(find_) < 1:
+                    stale = True; break
+                open(p, "w").write(s.replace(find_, repl_, 1))
+            if stale:
+                res.append((m["name"], "STALE (pattern not found)")); print(res[-1][0], res[-1][1], flush=True); continue
             env = dict(os.environ, VERIF_REPO=repo, VERIF_HOME=os.path.join(d, "home"))
             # evidence/replays of mutant runs go to a scratch home so that /verif/evidence is not touched
             os.makedirs(env["VERIF_HOME"])
